@@ -443,10 +443,14 @@ def move (d : Disk) (src dst : Nat) (xdev : Bool) : Bool × Disk :=
 /-! ## persistent `File` / `TextFile` objects: the lazily opened handle and the cached `stat` information
 
 `File` keeps `_file` (null until something opens it; several members open it on demand and leave it open) and
-`mutable FileInfo _info` (filled by the first `size()/creationDate()/lastModified()/isDirectory()`, reused
-until `close()` — `_info = FileInfo()` — or `exists()` — `_info.clear()` — discards it; a failed `stat`
-leaves `size == -1`, which reads as "nothing cached").  The members are transcribed from include/asl/File.h,
-src/File.cpp and src/TextFile.cpp. -/
+`mutable FileInfo _info` (filled by `size()/creationDate()/lastModified()/isDirectory()` of an object that is
+not open and reused until `close()` — `_info = FileInfo()` — or `exists()/content()/text()` — `_info.clear()` —
+discards it; a failed `stat` leaves `size == -1`, which reads as "nothing cached").  The members are transcribed
+from include/asl/File.h, src/File.cpp and src/TextFile.cpp as they are after the repairs ae75f36 (an open object
+asks again, after flushing; `content()/text()` do not use a cached size), 4c57e14 (`content()/text()/firstBytes()`
+of an object that is already open flush it and read through a separate temporary object, so they start at the
+beginning of the file, work on an object open for writing and leave its position alone) and a48095a (`open()`
+closes the handle the object already has). -/
 
 /-- the cached `FileInfo`: nothing, or the size `stat` reported -/
 inductive Cache where
@@ -470,16 +474,22 @@ def statFetch (d : Disk) (p : Nat) : Cache :=
   | none => .empty
   | some c => .size c.length
 
+def Cache.val : Cache → Int
+  | .empty => -1
+  | .size n => n
+
 /-- `if (!_info) _info = getFileInfo(_path);` -/
 def Obj.ensureInfo (d : Disk) (o : Obj) : Obj :=
   match o.info with
   | .empty => { o with info := statFetch d o.path }
   | .size _ => o
 
-/-- `size()` -/
+/-- `size()`: an open object flushes and asks again (`if (_file) { fflush(_file); _info = getFileInfo(_path); }`),
+    an object that is not open answers from the cache if there is one -/
 def Obj.size (d : Disk) (o : Obj) : Int × Obj :=
-  let o' := o.ensureInfo d
-  (match o'.info with | .empty => -1 | .size n => n, o')
+  match o.file with
+  | some _ => ((statFetch d o.path).val, { o with info := statFetch d o.path })
+  | none => ((o.ensureInfo d).info.val, o.ensureInfo d)
 
 /-- `exists()`: `_info.clear(); return creationDate().time() != 0;` -/
 def Obj.exists (d : Disk) (o : Obj) : Bool × Obj :=
@@ -491,17 +501,18 @@ def Obj.isFile (d : Disk) (o : Obj) : Bool × Obj :=
   let o' := o.ensureInfo d
   (o'.info != .empty, o')
 
-/-- `isDirectory()`, `lastModified()`, `creationDate()`: fill the cache like `size()` -/
+/-- `isDirectory()`, `lastModified()`, `creationDate()`: fill the cache if it is empty -/
 def Obj.touch (d : Disk) (o : Obj) : Obj := o.ensureInfo d
 
 /-- `close()`: `if (_file) fclose(_file); _file = 0; _info = FileInfo();` -/
 def Obj.close (o : Obj) : Obj := { o with file := none, info := .empty }
 
-/-- `open(mode)` on an object that is not open (`File::open(_path, mode)`, `TextFile::open` adds `TEXT`);
-    `_file` is null afterwards when `fopen` failed -/
+/-- `open(mode)` (`File::open(_path, mode)`, `TextFile::open` adds `TEXT`): `if (_file) close();` first, so a
+    reopened object loses nothing it had written; `_file` is null afterwards when `fopen` failed -/
 def Obj.open (d : Disk) (o : Obj) (mode : OpenMode) : Bool × Disk × Obj :=
-  let r := openH d o.path o.isText mode
-  (r.1.isSome, r.2, { o with file := r.1 })
+  let o0 := if o.file.isSome then o.close else o
+  let r := openH d o0.path o0.isText mode
+  (r.1.isSome, r.2, { o0 with file := r.1 })
 
 /-- `if (!_file && !open(mode)) …`: what every lazily opening member does first; `text` tells whether the
     member calls `TextFile::open` (with `TEXT`) or `File::open` -/
@@ -539,20 +550,28 @@ def Obj.put (d : Disk) (o : Obj) (bs : Bytes) : Bool × Disk × Obj :=
     let w := fwrite r.1 h bs
     (w.1 == bs.length, w.2.1, { r.2 with file := some w.2.2 })
 
-/-- `firstBytes(n)`: `open(_path)` (READ) only if the object is not open, then one `read` of `n` bytes from
-    wherever the handle stands; the object stays open -/
+/-- `firstBytes(n)`: an object that is already open flushes and answers through `File(_path).firstBytes(n)`
+    (a temporary: the first bytes of the file, this object untouched); otherwise `open(_path)` (READ), one
+    `read` of `n` bytes, and the object stays open -/
 def Obj.firstBytes (d : Disk) (o : Obj) (n : Nat) : Bytes × Obj :=
-  let r := o.lazyOpen d false .read
-  match r.2.file with
-  | none => ([], r.2)
-  | some h =>
-    let x := hread h n
-    (x.1, { r.2 with file := some x.2 })
+  match o.file with
+  | some _ => (FileText.firstBytes d o.path n, o)
+  | none =>
+    let r := o.lazyOpen d false .read
+    match r.2.file with
+    | none => ([], r.2)
+    | some h =>
+      let x := hread h n
+      (x.1, { r.2 with file := some x.2 })
 
-/-- `content()` = `firstBytes((int)size())`: the size is taken from the cache *before* the file is opened -/
+/-- `content()`: open ⇒ flush and `File(_path).content()`; not open ⇒ `_info.clear()`, then
+    `firstBytes((int)size())` with the size just fetched -/
 def Obj.content (d : Disk) (o : Obj) : Bytes × Obj :=
-  let s := o.size d
-  s.2.firstBytes d s.1.toNat
+  match o.file with
+  | some _ => (FileText.content d o.path, o)
+  | none =>
+    let s := ({ o with info := .empty } : Obj).size d
+    s.2.firstBytes d s.1.toNat
 
 /-- `read(p, n)` on an open object -/
 def Obj.read (o : Obj) (n : Nat) : Bytes × Obj :=
@@ -565,22 +584,25 @@ def Obj.read (o : Obj) (n : Nat) : Bytes × Obj :=
 /-- `(int)(size() & mask)` for a 64-bit `size()` (−1 when nothing could be cached) -/
 def sizeAnd (sz : Int) : Nat := (sz % 18446744073709551616).toNat &&& sizeMask
 
-/-- `TextFile::lines()`: open for reading only if not open, then read lines up to the end of the file
-    (afterwards the handle is at the end with the indicator set) -/
+/-- `TextFile::lines()`: open for reading only if not open, then read lines from wherever the handle stands up
+    to the end of the file (afterwards the handle is at the end with the indicator set) -/
 def Obj.lines (d : Disk) (o : Obj) : List Bytes × Obj :=
   let r := o.lazyOpen d true .read
   match r.2.file with
   | none => ([], r.2)
   | some h => (linesLoop (readLineChunk - 2) h.rs [], { r.2 with file := some { h with rs := { rest := [], eof := true } } })
 
-/-- `TextFile::text()`: `n` from the cached size first, then open for reading only if not open, then the body
-    on the bytes in front of the handle.  The position the handle is left at is not modelled (the protocol
-    refuses further reads through this object until it is closed or reopened). -/
+/-- `TextFile::text()`: open ⇒ flush and `TextFile(_path).text()`; not open ⇒ `_info.clear()`, `n` from the size
+    just fetched, open for reading, then the body.  The position the handle is left at is not modelled (the
+    protocol refuses `read`/`lines` through this object until it is closed or reopened). -/
 def Obj.text (d : Disk) (o : Obj) : Option Bytes × Obj :=
-  let s := o.size d
-  let r := s.2.lazyOpen d true .read
-  match r.2.file with
-  | none => (some [], r.2)
-  | some h => (textN (sizeAnd s.1) h.rs.rest, { r.2 with file := some { h with rs := { rest := [], eof := true } } })
+  match o.file with
+  | some _ => (FileText.textOf d o.path, o)
+  | none =>
+    let s := ({ o with info := .empty } : Obj).size d
+    let r := s.2.lazyOpen d true .read
+    match r.2.file with
+    | none => (some [], r.2)
+    | some h => (textN (sizeAnd s.1) h.rs.rest, { r.2 with file := some { h with rs := { rest := [], eof := true } } })
 
 end AslModel.FileText
